@@ -947,7 +947,8 @@ impl<'v> World<'v> {
                 self.sh.borrow_mut().close_conn(id);
                 self.last_connect_failed = true;
                 self.note_outcome(("connect", res));
-                self.check_connect_result(id, Err(res), draining);
+                let free = self.cfg.tx.saturating_sub(session.verif_runtime().tx_used);
+                self.check_connect_result(id, Err(res), draining, free);
                 false
             }
             Some(Ok(mut conn)) => {
@@ -956,7 +957,7 @@ impl<'v> World<'v> {
                 self.sh.borrow_mut().oracle.op_end(None, false);
                 self.last_connect_failed = false;
                 self.note_outcome(("connect", ev == ConnectEvent::Reconnected));
-                self.check_connect_result(id, Ok(ev), draining);
+                self.check_connect_result(id, Ok(ev), draining, 0);
                 if let Some(pid) = self.cfg.start_pid {
                     if self.conns_done == 1 && !draining {
                         conn.verif_session_mut().verif_set_next_packet_id(pid);
@@ -987,7 +988,7 @@ impl<'v> World<'v> {
         }
     }
 
-    fn check_connect_result(&mut self, id: usize, r: Result<ConnectEvent, Res>, draining: bool) {
+    fn check_connect_result(&mut self, id: usize, r: Result<ConnectEvent, Res>, draining: bool, arena_free: usize) {
         let mut sh = self.sh.borrow_mut();
         let connack = sh.oracle.conns[id].connack;
         let consumed = sh.oracle.conns[id].connack_consumed;
@@ -1016,10 +1017,16 @@ impl<'v> World<'v> {
                 );
             }
             (Err(res), _) if draining => {
+                let need = sh.oracle.last_connect_len;
+                let ctx = if res == Res::BufferTooSmall && need > 0 && arena_free < need {
+                    "BufferTooSmall-retained-packets-leave-less-arena-than-CONNECT-needs".to_string()
+                } else {
+                    format!("{:?}", res)
+                };
                 sh.oracle.flag(
                     "C12",
                     "R1-connect-fails",
-                    &format!("{:?}", res),
+                    &ctx,
                     format!("connect() over a healthy transport to a conformant broker fails with {:?}", res),
                 );
             }
